@@ -194,7 +194,8 @@ func (e *TemplateJoinExpr) Value(ctx *hcl.EvalContext) (cty.Value, hcl.Diagnosti
 			continue
 		}
 		if val.Type() == cty.DynamicPseudoType {
-			return cty.UnknownVal(cty.String).WithMarks(marks), diags
+			_, valMarks := val.Unmark()
+			return cty.UnknownVal(cty.String).WithMarks(append(allMarks, valMarks)...), diags
 		}
 		strVal, err := convert.Convert(val, cty.String)
 		if err != nil {
@@ -212,7 +213,8 @@ func (e *TemplateJoinExpr) Value(ctx *hcl.EvalContext) (cty.Value, hcl.Diagnosti
 			continue
 		}
 		if !val.IsKnown() {
-			return cty.UnknownVal(cty.String).WithMarks(marks), diags
+			_, valMarks := val.Unmark()
+			return cty.UnknownVal(cty.String).WithMarks(append(allMarks, valMarks)...), diags
 		}
 
 		strVal, strValMarks := strVal.Unmark()
